@@ -103,6 +103,23 @@ def st_history(draw, tier="quick"):
     inter = ["lte", "hydro", "resetup_other", "config_other", "solve_other_settings"]
     if tier == "thorough":
         inter.append("deton")
+    coll = None
+    if draw(st.sampled_from([False, False, True])):
+        # out-of-equilibrium particles with a synthetic relaxation-time collision operator
+        # (C delta f = Gamma delta f); stored grid size N_s >= N exercises the interpolation path
+        parts = [{"name": "top", "y": round(draw(st.floats(0.7, 1.1)), 3), "stat": "Fermion", "dof": 12,
+                  "field": 0, "m0sq": 0.0}]
+        if draw(st.booleans()):
+            parts.append({"name": "W", "y": round(draw(st.floats(0.4, 0.7)), 3), "stat": "Boson", "dof": 9,
+                          "field": 0, "m0sq": 0.0})
+        spec = dict(spec, particles=parts)
+        spec2 = dict(spec2, particles=parts)
+        nmax = max(cfg["momentumGridSize"], cfg2["momentumGridSize"])
+        coll = {"N_stored": nmax + draw(st.sampled_from([0, 2])),
+                "gammas": [round(10 ** draw(st.floats(-0.7, 0.7)), 3) for _ in parts],
+                "basis": draw(st.sampled_from(["Chebyshev", "Cardinal"]))}
+        s0 = dict(s0, offEq=True)
+        s1 = dict(s1, offEq=draw(st.booleans()))
     n_mid = draw(st.integers(1, 3))
     ops = [["solve", 0]]
     point, conf = 0, 0
@@ -131,8 +148,11 @@ def st_history(draw, tier="quick"):
     if conf != 0:
         ops.append(["config", 0])
     ops.append(["solve", 0])
-    return {"kind": "history", "spec": spec, "spec2": spec2, "cfg": cfg, "cfg2": cfg2,
+    case = {"kind": "history", "spec": spec, "spec2": spec2, "cfg": cfg, "cfg2": cfg2,
             "settings": [s0, s1], "ops": ops}
+    if coll:
+        case["coll"] = coll
+    return case
 
 
 def strategy(tier):
@@ -142,11 +162,12 @@ def strategy(tier):
 # ---------------------------------------------------------------------------
 # oracle pieces
 # ---------------------------------------------------------------------------
-def _reference(spec, cfg, settings):
-    key = canonical([spec, cfg, settings])
+def _reference(spec, cfg, settings, coll=None, coll_dir=None):
+    key = canonical([spec, cfg, settings, coll])
     if key not in _REF_CACHE:
         _REF_CACHE[key] = e2e.fresh_run({"spec": spec, "cfg": cfg, "what": ["solve"],
-                                         "settings": settings, "profiles": False})
+                                         "settings": settings, "profiles": False,
+                                         "coll_dir": coll_dir})
     return _REF_CACHE[key]
 
 
@@ -351,6 +372,30 @@ def model_particles(manager):
 
 
 def run_history(case, v: Verdict):
+    import shutil
+    import tempfile
+
+    coll = case.get("coll")
+    coll_dir = None
+    try:
+        if coll:
+            from vlib import collfiles
+
+            coll_dir = tempfile.mkdtemp(prefix="verif_c01_coll_")
+            names = [pt["name"] for pt in case["spec"]["particles"]]
+            collfiles.write_relaxation_directory(coll_dir, names, int(coll["N_stored"]),
+                                                 [float(g) for g in coll["gammas"]], basis=coll["basis"])
+            v.label("offEq", f"particles:{len(names)}",
+                    "interp" if coll["N_stored"] > case["cfg"]["momentumGridSize"] else "same_size")
+        _run_history(case, v, coll, coll_dir)
+    finally:
+        if coll_dir:
+            shutil.rmtree(coll_dir, ignore_errors=True)
+
+
+def _run_history(case, v: Verdict, coll, coll_dir):
+    import pathlib
+
     import WallGo
 
     spec_of = [case["spec"], case["spec2"]]
@@ -362,6 +407,8 @@ def run_history(case, v: Verdict):
         v.discarded(f"setup failed: {type(exc).__name__}")
         v.label("setup_failed")
         return
+    if coll_dir:
+        manager.setPathToCollisionData(pathlib.Path(coll_dir))
     seen = {}
     solves_main = 0
     separated = False
@@ -412,7 +459,7 @@ def run_history(case, v: Verdict):
             cls = f"{spec_of[point]['family']} M={cfg_of[conf]['spatialGridSize']} cons={cfg_of[conf].get('conserveEnergyMomentum', True)}"
             try:
                 r = manager.solveWall(e2e.settings_obj(settings))
-            except WallGo.WallGoError as exc:
+            except (WallGo.WallGoError, WallGo.CollisionLoadError) as exc:
                 v.label("solve_wallgoerror")
                 summ = {"error": str(exc)[:200]}
                 r = None
@@ -422,8 +469,10 @@ def run_history(case, v: Verdict):
                 summ = e2e.results_summary(r, profiles=False)
             # 6. history independence
             v.checked("history")
-            ref = _reference(spec_of[point], cfg_of[conf], settings)
-            if "setup_error" in ref:
+            ref = _reference(spec_of[point], cfg_of[conf], settings, coll, coll_dir)
+            if ref.get("timeout"):
+                v.label("reference_timeout")
+            elif "setup_error" in ref:
                 v.label("reference_setup_error")
             elif "solve_error" in ref:
                 if r is not None:
